@@ -370,8 +370,8 @@ def handleStrategy (j : Json) : Except String Verdict := do
 Correspondence: the model's printer on the traced fields writes the crate's JSON, the model's reader on that JSON is what the
 crate reads back.  Specification (C09, "for all schemas the crate can trace"): a traced schema survives `to_value` /
 `from_value` unchanged.  Tie to the theorems `C09_from_type_in_domain` / `C09_from_samples_in_domain`: the traced fields lie
-in `SchemaOK` — for every option (a never-reached position is traced as a NULLABLE `Null` under `allow_null_fields` since
-repo fix 5168cf7, finding `C09-traced-unseen-null`; the pinned behaviour is `C09_unseen_position_outside_pinned`). -/
+in `SchemaOK` — for every option (a never-reached position is traced as a NULLABLE `Null` under `allow_null_fields`: repo fix
+5168cf7, finding `C09-traced-unseen-null`; the behaviour before the fix is the witness `C09_unseen_position_outside_pinned`). -/
 def handleTraced (j : Json) : Except String Verdict := do
   let esc ← escOf j
   let allowNull := ((← getObj j "opts").getObjValAs? Bool "allow_null_fields").toOption.getD false
